@@ -363,7 +363,7 @@ Proof. vm_compute. reflexivity. Qed.
 
 (* non-vacuity: a multi-limb, non-canonical, complex example satisfies every hypothesis *)
 Definition example_expr : cexp :=
-  CDiv (CAdd (CLit (mkrat Negative (Large [0; 5; 0]) (Large [3; 1]))) CI)
+  CDiv (CAdd (CLit (mkrat Negative (Large [0; 5; 0]%N) (Large [3; 1]%N))) CI)
        (CPow (CSub (lit_u64 7) (CMul (lit_u64 2) (lit_u64 5))) (CNeg (lit_u64 3))).
 
 Example exact_hypotheses_inhabited :
